@@ -8,8 +8,11 @@ import (
 	"strings"
 	"testing"
 
+	metav1 "k8s.io/apimachinery/pkg/apis/meta/v1"
 	"k8s.io/apimachinery/pkg/apis/meta/v1/unstructured"
+	"k8s.io/apimachinery/pkg/runtime"
 	"k8s.io/apimachinery/pkg/types"
+	"k8s.io/utils/ptr"
 
 	"github.com/crossplane/crossplane/verifsim/kit"
 	"github.com/crossplane/crossplane/verifsim/pkgworld"
@@ -84,9 +87,29 @@ func (g *guard) onLog(e *simapi.LogEntry) {
 	}
 	if e.Changed || e.Removed {
 		sig := "C02/write-committed-on-foreign-object/" + g.what[e.Key]
-		if g.what[e.Key] == "replaced-composed-resource" {
+		switch g.what[e.Key] {
+		case "replaced-composed-resource":
 			// placed while reconciles were in flight: which request went through matters
 			sig += "/" + e.Verb
+		case "composed-resource-taken-over", "crd-handed-over":
+			// the same object changed hands: did the writing reconcile act on a copy
+			// (read earlier, or served by a lagging cache) that still showed it as its own?
+			sig += "/" + e.Verb
+			for i := len(g.st.Log) - 1; i >= 0; i-- {
+				l := g.st.Log[i]
+				if l.TaskID == e.TaskID && l.Seq < e.Seq && l.Read && l.Verb == "get" && l.Key == e.Key && l.Injected == "" && l.After != nil {
+					foreign := false
+					for _, o := range (&unstructured.Unstructured{Object: l.After}).GetOwnerReferences() {
+						if o.Controller != nil && *o.Controller && o.UID == "stranger-uid" {
+							foreign = true
+						}
+					}
+					if !foreign {
+						sig += "/acted-on-a-copy-that-showed-it-as-its-own"
+					}
+					break
+				}
+			}
 		}
 		g.s.Violate(sig, fmt.Sprintf("%s committed %s on %s %s/%s, which another owner controls (%s)", e.Actor, e.Verb, e.Key.Kind, e.Key.NS, e.Key.Name, g.what[e.Key]))
 		// one report per object: what happens to it afterwards is a consequence
@@ -136,7 +159,10 @@ func runXR(s *sim.Sim, res *runner.Result) {
 	var blocked []string
 	var sc *simapi.Client
 	xrworld.Run(s, res, xrworld.Hooks{
-		Opts:   func(tp *sim.Tape) xrworld.Opts { lag := tp.Next(2) == 1; return xrworld.Opts{LagComposed: lag, LagManual: lag && tp.Next(2) == 1} },
+		Opts: func(tp *sim.Tape) xrworld.Opts {
+			lag := tp.Next(2) == 1
+			return xrworld.Opts{LagComposed: lag, LagManual: lag && tp.Next(2) == 1}
+		},
 		Params: xrworld.DrawParams{Conn: true, MaxXR: 1},
 		Faults: []sim.Outcome{sim.ErrBefore, sim.ErrAfter, sim.Conflict, sim.CrashBefore, sim.CrashAfter, sim.Stale},
 		Env: func(w *xrworld.W, wl *xrworld.Workload) []sim.Action {
@@ -146,7 +172,19 @@ func runXR(s *sim.Sim, res *runner.Result) {
 			if len(cs) == 0 || sc == nil {
 				return nil
 			}
-			return []sim.Action{{Key: "a stranger replaces a composed resource under its name", Weight: 2, Run: func() {
+			return []sim.Action{{Key: "control of a composed resource passes to a stranger", Weight: 2, Run: func() {
+				// the same object: its controller reference now names another owner
+				c := cs[s.Tape.Next(len(cs))]
+				if _, ok := g.placed[c.Key]; ok {
+					return
+				}
+				u := c.Obj.DeepCopy()
+				u.SetOwnerReferences(nil)
+				_ = unstructured.SetNestedSlice(u.Object, foreignOwner(), "metadata", "ownerReferences")
+				if sc.Update(context.Background(), u) == nil {
+					g.place(c.Key, "composed-resource-taken-over")
+				}
+			}}, {Key: "a stranger replaces a composed resource under its name", Weight: 2, Run: func() {
 				c := cs[s.Tape.Next(len(cs))]
 				if _, ok := g.placed[c.Key]; ok || len(c.Obj.GetFinalizers()) > 0 {
 					return
@@ -305,6 +343,40 @@ func runClaim(s *sim.Sim, res *runner.Result) {
 			for _, c := range claims {
 				c := c
 				acts = append(acts, sim.Action{Key: "edit claim " + c.Name, Weight: 3, Run: func() { w.EditClaim(wl, c, xrworld.DrawParams{}, s.Tape) }})
+			}
+			if !crdTaken {
+				// control of a CRD the XRD created passes to another owner (the XRD
+				// stays on it as a plain owner); later the XRD is deleted
+				for _, name := range []string{"xthings.example.org", "thingclaims.example.org"} {
+					k := simapi.ObjKey{Group: "apiextensions.k8s.io", Kind: "CustomResourceDefinition", Name: name}
+					m := w.Store.Peek(k)
+					if _, done := g.placed[k]; done || m == nil {
+						continue
+					}
+					acts = append(acts, sim.Action{Key: "control of CRD " + name + " passes to a stranger", Weight: 1, Run: func() {
+						u := &unstructured.Unstructured{Object: runtime.DeepCopyJSON(w.Store.Peek(k))}
+						refs := u.GetOwnerReferences()
+						for i := range refs {
+							refs[i].Controller = ptr.To(false)
+							refs[i].BlockOwnerDeletion = nil
+						}
+						refs = append(refs, metav1.OwnerReference{APIVersion: "v1", Kind: "ConfigMap", Name: "stranger", UID: "stranger-uid", Controller: ptr.To(true)})
+						u.SetOwnerReferences(refs)
+						if sc := stranger(w); sc.Update(context.Background(), u) == nil {
+							g.place(k, "crd-handed-over")
+						}
+					}})
+				}
+				if len(g.placed) > 0 && w.Store.Peek(simapi.ObjKey{Group: xrworld.XRDGVK.Group, Kind: xrworld.XRDGVK.Kind, Name: xrworld.XRDName}) != nil {
+					acts = append(acts, sim.Action{Key: "user deletes the XRD", Weight: 1, Run: func() {
+						x := &unstructured.Unstructured{}
+						x.SetGroupVersionKind(xrworld.XRDGVK)
+						x.SetName(xrworld.XRDName)
+						if w.Direct.Delete(context.Background(), x) == nil {
+							s.Probe("xrd-deleted")
+						}
+					}})
+				}
 			}
 			return acts
 		},
